@@ -174,7 +174,9 @@ impl<'a> D<'a> {
             // the type of an initial transition has no meaning
             let _ = write!(s, "targets={:?}", targets);
         } else {
-            let _ = write!(s, "events={:?} wildcard={} cond={} targets={:?} type={}", t.events, t.wildcard, data_text(&t.cond, self.raw), targets, t.transition_type);
+            // an empty condition is no condition (the writer does not persist it, conditionMatch() treats both alike)
+            let cond = if t.cond.is_empty() { "null".to_string() } else { data_text(&t.cond, self.raw) };
+            let _ = write!(s, "events={:?} wildcard={} cond={} targets={:?} type={}", t.events, t.wildcard, cond, targets, t.transition_type);
         }
         self.line(ind, &s);
         self.content(ind + 1, "content", t.content);
